@@ -24,6 +24,7 @@ CONSTANTS Widths,    \* set of leaf widths; one is chosen per behaviour
           MaxW,      \* largest width a handle may reach (compositions / widening multiply)
           FreshOnly, \* TRUE: every call after the first must use the newest handle (exhaustive configs)
           Ops,       \* set of action kinds enabled
+          AutoSimp,  \* TRUE: append simplify() of every built handle to each behaviour
           MapSpan,   \* partial-write configs: only the low MapSpan bits of r are written
           MapSrc,    \* {} : any handle may be stored by mset; else only these (exhaustive partial-write configs)
           Rand       \* TRUE (simulation configs): operand handles are drawn with RandomElement instead of
@@ -54,7 +55,10 @@ Bits1 == {c \in All : pool[c] = 1}
 
 Push(w, rec) == /\ pool' = Append(pool, w) /\ h' = Append(h, rec @@ [rw |-> w]) /\ UNCHANGED <<W, emitted>>   \* rw: the width the call dictates
 
-Bin == \E s \in BinArith \cup BinCmp \cup BinWide \cup BinShift, i \in Pick1(All) :
+(* in simulation configs one operator per group is drawn, so that the other call kinds are not crowded out *)
+BinSyms == IF Rand THEN Pick1(BinArith) \cup Pick1(BinCmp) \cup Pick1(BinWide) \cup Pick1(BinShift)
+           ELSE BinArith \cup BinCmp \cup BinWide \cup BinShift
+Bin == \E s \in BinSyms, i \in Pick1(All) :
        \E j \in Pick1(IF s \in BinShift THEN All ELSE Same(i)) :
          /\ "bin" \in Ops /\ Uses({i, j})
          /\ (s \notin BinShift => pool[i] = pool[j])
@@ -62,7 +66,7 @@ Bin == \E s \in BinArith \cup BinCmp \cup BinWide \cup BinShift, i \in Pick1(All
          /\ Push(IF s \in BinCmp THEN 1 ELSE IF s = "**" THEN 2 * pool[i] ELSE pool[i],
                  [act |-> "bin", s |-> s, i |-> i, j |-> j])
 
-Un == \E s \in {"-", "~"}, i \in Pick1(All) :
+Un == \E s \in Pick1({"-", "~"}), i \in Pick1(All) :
          /\ "un" \in Ops /\ Uses({i})
          /\ Push(pool[i], [act |-> "un", s |-> s, i |-> i])
 
@@ -81,13 +85,13 @@ Cond == \E c \in Pick1(Bits1), i \in Pick1(All) : \E j \in Pick1(Same(i)) :
          /\ pool[c] = 1 /\ pool[i] = pool[j]
          /\ Push(pool[i], [act |-> "cond", c |-> c, i |-> i, j |-> j])
 
-Ext == \E i \in Pick1(All), sg \in {0, 1}, n \in {1, 8, W} :
+Ext == \E i \in Pick1(All), sg \in Pick1({0, 1}), n \in Pick1({1, 8, W}) :
          /\ "ext" \in Ops /\ Uses({i})
          /\ pool[i] + n <= MaxW
          /\ Push(pool[i] + n, [act |-> "ext", i |-> i, sg |-> sg, w |-> pool[i] + n])
 
 (* e.simplify with options: a new handle (possibly the same object) that must mean the same *)
-Simp == \E i \in Pick1((NLeaves + 1)..N), bs \in {0, 1}, wd \in {0, 1} :
+Simp == \E i \in Pick1((NLeaves + 1)..N), bs \in Pick1({0, 1}), wd \in Pick1({0, 1}) :
          /\ "simplify" \in Ops /\ Uses({i})
          /\ Push(pool[i], [act |-> "simplify", i |-> i, bitslice |-> bs, widening |-> wd])
 
@@ -99,7 +103,7 @@ Pick == \E i \in Pick1(12..N) :
 (* m[loc] = handle; handle' = m[loc], optionally after a pickle round trip of the whole map (pk = 1):
    storing an expression in a map and reading it back gives an expression that means the same, and
    leaves the stored one (and every other handle) alone *)
-MapW == \E i \in Pick1(All), pk \in {0, 1} :
+MapW == \E i \in Pick1(All), pk \in Pick1({0, 1}) :
          /\ "mapw" \in Ops /\ Uses({i})
          /\ Push(pool[i], [act |-> "mapw", i |-> i, pk |-> pk])
 
@@ -124,13 +128,20 @@ MSet == \E j \in Pick1(IF MapSrc = {} THEN All ELSE MapSrc) :
          /\ (MapSrc # {} => Steps < MaxSteps - 1)      \* partial-write configs: the last call is the read back
          /\ Push(n, [act |-> "mset", j |-> j, lo |-> lo, pos |-> pos, n |-> n])   \* value = handle j [lo : lo+n]
 MGet == /\ "mget" \in Ops /\ 2 * W <= MaxW /\ (IF Steps = 0 THEN TRUE ELSE h[Steps].act # "mget")
-        /\ (MapSrc # {} => Steps = MaxSteps - 1)     \* partial-write configs: read the register back once, last
+        /\ (MapSrc # {} => Steps >= 2)               \* partial-write configs: read back after >= 2 writes
         /\ Push(2 * W, [act |-> "mget"])
 
 (* a complete behaviour is printed exactly once, by its own (single) successor step: in simulation
    mode TLC evaluates constraints on every candidate successor, an action prints only for the one taken *)
+(* AutoSimp: every behaviour ends with simplify() of each handle it built (the rewrite rules are reached on
+   every shape the behaviour produced, not only where the generator happened to draw a simplify call) *)
+Closing == IF AutoSimp
+           THEN [k \in 1..(N - NLeaves) |-> [act |-> "simplify", i |-> NLeaves + k, bitslice |-> k % 2, widening |-> 0,
+                                              rw |-> pool[NLeaves + k]]]
+           ELSE <<>>
 Done == /\ Steps = MaxSteps /\ ~emitted
-        /\ PrintT(ToJson([w |-> W, calls |-> h]))
+        /\ (MapSrc # {} => h[Steps].act = "mget")
+        /\ PrintT(ToJson([w |-> W, calls |-> h \o Closing]))
         /\ emitted' = TRUE /\ UNCHANGED <<W, pool, h>>
 
 Next == \/ /\ Steps < MaxSteps
